@@ -5,7 +5,7 @@ From WC Require Import Str.
 From WC.Gen Require Import Consts.
 Open Scope N_scope.
 
-Inductive nerr := NSyntax | NLookup | NValue.       (* SyntaxError | KeyError (unknown \N{name}) | ValueError (chr out of range) *)
+Inductive nerr := NSyntax | NLookup.       (* SyntaxError (incomplete escape, code point out of range) | KeyError (unknown \N{name}) *)
 
 Definition is_hex (c : ch) : bool :=
   ((48 <=? c) && (c <=? 57)) || ((97 <=? c) && (c <=? 102)) || ((65 <=? c) && (c <=? 70)).
@@ -86,7 +86,7 @@ Section Norm.
         | Some (digits, r', false) =>
             if raw then
               let v := hexnum digits in
-              if v <? 1114112 then Some (inl [v], r') else Some (inr NValue, r')
+              if v <? 1114112 then Some (inl [v], r') else Some (inr NSyntax, r')   (* chr() failed: SyntaxError *)
             else Some (inl (92 :: c :: digits), r')
         | None =>
           let g5 : option (str * str) :=                                    (* group 5: \N{...} (str only) *)
